@@ -1,0 +1,8 @@
+//go:build !verif
+
+package files
+
+func verifSeek(v *Reader, offset int)                  {}
+func verifRead(v *Reader, length int, result string)   {}
+func verifReadAt(v *Reader, length int, result string) {}
+func verifReadAt0(v *Reader, length int, offset int)   {}
